@@ -41,7 +41,7 @@ import (
 func init() {
 	h.Register(&h.Prop{
 		ID:         "C08",
-		Rule:       "enc: real EncryptedDeal, presented to every (recipient, opener, believed dealer, believed member list) combination for n<=5 and mutated at byte level (xor masks 01/80/FF at byte positions of all four fields - sampled in quick, every position in thorough -, truncation/extension by 1 and 16, field swaps with a second deal of the same dealer to another recipient / of another dealer / a second deal to the same recipient); pl: plaintext deviations sealed through the hook (bad share, T in {0,1,n+1,2^32-1} with and without matching session id, self-consistent deals (T commitments, fitting share and session id) for every T in 0..n+1 and 2n, wrong index, nil share, nil value, empty plaintext, other-length commitments, foreign session ids, same deal twice); non-trivial = anything but the unmodified deal opened by its addressee; distinct = distinct case line",
+		Rule:       "enc: real EncryptedDeal, presented to every (recipient, opener, believed dealer, believed member list) combination for n<=5 and mutated at byte level (xor masks 01/80/FF at byte positions of all four fields - sampled in quick, every position in thorough -, truncation/extension by 1 and 16, field swaps with a second deal of the same dealer to another recipient / of another dealer / a second deal to the same recipient); pl: plaintext deviations sealed through the hook (bad share, T in {0,1,n+1,2^32-1} with and without matching session id, self-consistent deals (T commitments, fitting share and session id) for every T in 0..n+1 and 2n, wrong index (small, out of range, and equal to the own index modulo 2^32), nil share, nil value, empty plaintext, other-length commitments, foreign session ids, same deal twice); non-trivial = anything but the unmodified deal opened by its addressee; distinct = distinct case line",
 		Gen:        gen,
 		Exec:       exec,
 		Exhaustive: func(tier string) bool { return tier == "thorough" },
@@ -730,6 +730,10 @@ func gen(tier string, rng *h.Rng, emit func(string)) {
 				}
 				devs = append(devs, fmt.Sprintf("Tc:%d", 2*n))
 				devs = append(devs, "idx:-1", "idx:1000000")
+				// indices that agree with the recipient's only in their low 32 bits (share = f(I+1) for that I)
+				for _, off := range []int64{1 << 32, -(1 << 32), 1 << 33, 3 << 32, (1 << 62), -(1 << 62) + (1 << 32)} {
+					devs = append(devs, fmt.Sprintf("idx:%d", int64(i)+off))
+				}
 				for _, d := range dedupe2(devs) {
 					emit(fmt.Sprintf("pl %d %d %d %d %s", seed(), n, t, i, d))
 				}
